@@ -3,6 +3,7 @@ import Proofs.C11Slurp
 import Proofs.C11Print
 import Proofs.C11FullConv
 import Proofs.C11Dir
+import Proofs.C11Lex
 /-!
   C11 — "the internal query rewrite preserves the meaning of the user's program": property theorems.
 
@@ -201,6 +202,91 @@ theorem parse_sound_prog (ts : List Full.Tok) (p : Dir.Prog) (h : Dir.parseProg 
 theorem print_parse_idem_prog (ts : List Full.Tok) (p : Dir.Prog) (h : Dir.parseProg ts = some p) :
     Dir.parseProg (Dir.printProg p) = some p :=
   Proofs.C11.Dir.parse_print_parse_prog ts p h
+
+/-! ### the lexical layer: text → tokens → text (FqModel/C11Lex.lean)
+
+  fq's round trip is on TEXT: `_query_tostring` = the fork's `Query.String()`, then the fork's lexer and parser again.
+  The fork keeps literals as follows: a number is stored as its source TEXT (`Term.Number string`), so the spelling
+  (`0x10`, `0b1_0`, `1.`, `.5e+3`) survives, not only the value; a string is stored DECODED and printed by
+  `jsonEncodeString`. -/
+
+open FqModel.C11.Lex in
+/-- For ALL strings (any sequence of Unicode scalar values: control characters, quotes, backslashes, DEL, non-ASCII):
+    the literal the printer writes (`jsonEncodeString`) is read back by the lexer (scanString + unquote/json.Unmarshal)
+    as exactly that string, whatever text follows the closing quote, after any white space. -/
+theorem string_literal_roundtrip (s rest : Text) :
+    lexOne false (Lex.encodeString s ++ rest) = .tok (.tok (.str (String.ofList s))) rest :=
+  Proofs.C11.Lex.lexOne_encodeString s rest
+
+open FqModel.C11.Lex Proofs.C11.Lex in
+/-- Number literals keep their SPELLING: whenever the scanner accepts `s` as (the rest of) one number — decimal,
+    fraction, exponent in any state of scanNumber; or the digits and `_` separators after `0x`/`0o`/`0b` — it reads
+    exactly `s` again in front of any text that does not start with a digit, `.` or an identifier character
+    (resp. a digit of the base or `_`), and the token payload, which the AST stores, is that text. -/
+theorem number_literal_roundtrip (st : NS) (s rest : Text) (h : scanNumber st s = some (s, [])) (hr : stopsNum rest = true) :
+    scanNumber st (s ++ rest) = some (s, rest) :=
+  scanNumber_append s st rest h hr
+
+open FqModel.C11.Lex Proofs.C11.Lex in
+theorem number_literal_roundtrip_prefixed (b : Char) (s rest : Text) (h : s.all (isBaseDigit b) = true)
+    (hr : (match rest with | [] => true | c :: _ => !isBaseDigit b c) = true) :
+    scanBase b (s ++ rest) = (s, rest) :=
+  scanBase_append b s rest h hr
+
+open FqModel.C11.Lex Proofs.C11.Lex in
+/-- identifiers, keywords, variables, fields, formats: the word scanner stops exactly where the word ends when the next
+    character is not a letter, digit or `_` -/
+theorem word_roundtrip (w rest : Text) (hw : w.all isIdTail = true) (hr : stopsId rest = true) :
+    scanId (w ++ rest) = (w, rest) :=
+  scanId_append w rest hw hr
+
+/- FULL statement (not proved — `lex_print_tokens`, `text_roundtrip`):
+     ∀ e lt, wf e → cat e = .query → lt.map cls = print e → every payload of `lt` is a spelling the lexer accepts →
+       every interpolated string of `e` is in the lexer's normal form (at least one `\(`, no empty and no adjacent
+       literal pieces) → lex (printText e lt) = some lt   ∧   parseText (printText e lt) = some e.
+   Proved below: the composition with `print_parse_full` GIVEN the lexing equation for the tree at hand
+   (`text_roundtrip_partial`); the lexing equation itself is proved for the literal classes above and is otherwise
+   validated by enumeration only: the driver evaluates `lex (printText e lt) = some lt` on every accepted `lx` case and
+   compares `printText e lt` character by character with the text `_query_tostring` returns. -/
+open FqModel.C11.Lex in
+theorem text_roundtrip_partial (e : Full.E) (lt : List LTok) (hw : Full.wf e = true) (hq : Full.cat e = .query)
+    (hsp : lt.map LTok.cls = Full.print e) (hlex : lex (printText e lt) = some lt) :
+    parseText (printText e lt) = some e := by
+  simp only [parseText, hlex, hsp]
+  exact print_parse_full e hw hq
+
+open FqModel.C11.Lex Full in
+/-- the hypotheses of `text_roundtrip_partial` hold for a tree with numbers in every spelling, an interpolated
+    string with an escape, adjacent `-`, `..` before a field, a field after a digit:
+    `-0x1_f - -.5e+3 | .a1 .b | .. .c | "p\n\(1 .e)"` -/
+example :
+    let e : E := .bin .pipe (.bin .sub (.neg (.num "0x1_f")) (.neg (.num ".5e+3")))
+      (.bin .pipe (.sfxField (.field "a1") "b") (.bin .pipe (.sfxField .dotdot "c")
+        (.istr [.piece "p\n", .interp (.sfxField (.num "1") "e")])))
+    let lt := (print e).map spell
+    wf e = true ∧ cat e = .query ∧ lt.map LTok.cls = print e ∧ lex (printText e lt) = some lt ∧
+      String.ofList (printText e lt) = "-0x1_f - -.5e+3 | .a1 .b | .. .c | \"p\\n\\(1 .e)\"" := by
+  decide +kernel
+
+open FqModel.C11.Lex Full in
+/-- without the lexer's normal form for interpolated strings the TEXT round trip fails although the token round trip
+    holds: the token list `"` `a` `"` (start, piece, end — accepted by the grammar, never produced by the lexer)
+    prints as the plain string `"a"` -/
+example : (parse [.strStart, .str "a", .strEnd]).map print = some (print (.istr [.piece "a"])) ∧
+    lex (printText (.istr [.piece "a"]) [.tok .strStart, .tok (.str "a"), .tok .strEnd]) = some [.tok (.str "a")] := by
+  decide +kernel
+
+open FqModel.C11.Lex in
+/-- quirks of the fork's lexer, modelled as they are: a NUL character ends the program (Lex returns 0 = yacc's end
+    marker), also inside a comment; `0x` without digits and `1.` are numbers; `1_000` is not -/
+example : lex "1\x00 | junk".toList = some [.tok (.num "1")] ∧ lex "1 # c\x00\n| 2".toList = some [.tok (.num "1")] ∧
+    lex "0x 1. 0b_".toList = some [.tok (.num "0x"), .tok (.num "1."), .tok (.num "0b_")] ∧ lex "1_000".toList = none := by
+  decide +kernel
+
+open FqModel.C11.Lex in
+/-- surrogate escapes as Go's json.Unmarshal handles them: a pair is one code point, a lone one is U+FFFD -/
+example : lex "\"\\ud83d\\ude00\\ud800x\\udc00\"".toList = some [.tok (.str "😀\uFFFDx\uFFFD")] := by
+  decide +kernel
 
 /-! ### non-vacuity and witnesses -/
 
